@@ -332,8 +332,10 @@ func (s *Set) Sample(n Node, depth int) any {
 		return map[string]any{}
 	}
 	switch n.S["type"] {
-	case "integer", "number":
+	case "integer":
 		return json.Number("1")
+	case "number":
+		return json.Number("1.5") // not integral: the canonical form of such numbers is a path of its own
 	case "boolean":
 		return true
 	case "string", nil:
